@@ -7,6 +7,8 @@ from typing import Any
 
 # property id -> profile module name
 PROPERTY_PROFILE = {
+    "C16": "batch",
+    "C17": "server",
     "C18": "crash",
     "C19": "race",
     "C20": "patch",
